@@ -202,6 +202,19 @@ class LockRule:
                     rep.bad("R-LOCK", "R-LOCK:" + key, body.where(bi), "K5: cache .%s is accessed (%s) outside its get-or-compute accessor: the result can depend on whether an entry happens to be cached, i.e. on the query history" % (fld, meth))
             if not accessor:
                 rep.bad("R-LOCK", "R-LOCK:K5:.%s:no-accessor" % fld, "-", "K5: no single accessor function returns the guard of cache .%s" % fld)
+            # K5b inside the accessor every access of the cache is for the accessor's own key: looking whether *another* key happens
+            # to be cached makes the answer depend on which queries came before
+            for f in accessor:
+                ab = prog.bodies[f]
+                for bi2, t2 in ab.calls():
+                    nm2 = strip_generics(mir.callee_name(t2) or "")
+                    if nm2.startswith("dashmap::DashMap::") and len(t2["args"]) > 1 and (map_field_of(ab, t2["args"][0]) or "?") == fld:
+                        kd = repr(G.describe(ab, t2["args"][1]))
+                        key = "K5b:.%s:%s:%s-key" % (fld, strip_generics(f).split("::")[-1], nm2.split("::")[-1])
+                        if re.fullmatch(r"&?_2\**|<haystack::val::symbol::Symbol as std::clone::Clone>::clone\(_2\**\)", kd):
+                            rep.ok("R-LOCK", key, ab.where(bi2), "K5b: the cache is asked for the accessor's own key")
+                        else:
+                            rep.bad("R-LOCK", "R-LOCK:" + key, ab.where(bi2), "K5b: the accessor of cache .%s looks up %s, not the key it was called for: whether that other entry is cached depends on the query history" % (fld, kd[:80]))
         for body in prog.bodies.values():
             if "units_generated" in body.id:
                 continue
@@ -225,6 +238,14 @@ class LockRule:
                     touched.add(map_field_of(body, t["args"][0]) or "?")
                 for g in tg | cb:
                     touched |= self.touches(g)
+                # K1b a caller-supplied callback (a call through a generic Fn parameter / a `dyn Fn`) may do anything, querying this
+                # namespace included: while a guard is live it counts as touching every cache
+                if nm.endswith(("Fn::call", "FnMut::call_mut", "FnOnce::call_once")) and t["args"]:
+                    rty = body.local_ty(mir.op_place(t["args"][0])["l"]) if mir.op_place(t["args"][0]) is not None else ""
+                    if re.fullmatch(r"&?(mut )?[A-Z][A-Za-z0-9]*", rty.replace("&'_ ", "&")) or "dyn " in rty:
+                        for (l, m) in sorted(live):
+                            rep.bad("R-LOCK", "R-LOCK:K1b:%s:guard(.%s) across callback" % (body.short, m), body.where(b), "K1b: a guard of cache .%s is held while the caller's callback (%s) runs: a callback that queries the namespace inserts into the cache and blocks on the shard lock this thread holds" % (m, rty))
+                        continue
                 for (l, m) in sorted(live):
                     key = "K1:%s:guard(.%s) across %s" % (body.short, m, nm.split("::")[-1])
                     if m in touched:
